@@ -320,6 +320,10 @@ class Context:
         )
         context.eval_ctx = self.eval_ctx
         context.blocks.update((k, list(v)) for k, v in self.blocks.items())
+        # the derived context belongs to the same template: imports made
+        # from it see the same template globals
+        context.globals_keys = self.globals_keys
+        context._globals = self._globals
         return context
 
     keys = _dict_method_all(dict.keys)
